@@ -43,6 +43,10 @@
         of every run from a fresh node whose timeouts are scheduled ones. (`signed` is in signing
         order, so "later" is a position in it; the polka is in the node's vote sets from the
         moment of signing on.)  This is assumption A3 of the timed agreement theorem (C01).
+    L11 no equivocation in a run (same invariant): no two votes of the signing history share
+        height, round and type - the node signs a prevote only before it stands in Prevote of that
+        round and a precommit only before Precommit, and never for a round it has left. (Across
+        crashes this is the signer's job: C03.)  This is assumption A1.
   PARTIAL (named): L3 (the proposer proposes its locked block) is transition-local only; runs that
   contain a crash and a WAL replay are covered by C07's replay theorems plus the c07 engine, not by
   these run invariants (the ghost history does not survive `Wal.restart`).
@@ -362,6 +366,18 @@ theorem lock_rule_spelled_out (n : Node) (inv : A3Inv n) (i j : Nat) (hij : i < 
     ∃ r'' bid'', (n.signed[i]'(by omega)).round < r'' ∧ r'' ≤ (n.signed[j]).round ∧
       maj23 (prevotes n r'') = some bid'' ∧ bid''.hash ≠ (n.signed[i]'(by omega)).bid.hash :=
   inv.g3 i j hij hj ⟨h1, h2, h3⟩ h4 h5 h6 h7
+
+/-- L11: no two signed votes share height, round and type -/
+theorem run_signs_once_per_round (cfg : Cfg) (height : Int) (vals : ValSet.ValSet) (me : Option Nat) (skip : Bool)
+    (ins : List In) (hs : Scheduled (Node.init cfg height vals me skip) ins)
+    (i j : Nat) (hij : i < j) (hj : j < (ins.foldl stepIn (Node.init cfg height vals me skip)).signed.length) :
+    ¬ (((ins.foldl stepIn (Node.init cfg height vals me skip)).signed[i]'(by omega)).height =
+          ((ins.foldl stepIn (Node.init cfg height vals me skip)).signed[j]).height ∧
+       ((ins.foldl stepIn (Node.init cfg height vals me skip)).signed[i]'(by omega)).round =
+          ((ins.foldl stepIn (Node.init cfg height vals me skip)).signed[j]).round ∧
+       ((ins.foldl stepIn (Node.init cfg height vals me skip)).signed[i]'(by omega)).type =
+          ((ins.foldl stepIn (Node.init cfg height vals me skip)).signed[j]).type) :=
+  (run_lock_rule cfg height vals me skip ins hs).uniq i j hij hj
 
 /-- inductive from any state that satisfies the invariant -/
 theorem step_keeps_lock_rule (n : Node) (inp : In) (i : A3Inv n) (hw : WellTimed n inp) : A3Inv (stepIn n inp) :=
